@@ -119,6 +119,73 @@ def job(j):
                 bad.append((' '.join(m), 'not consistent after repair', [rc2, out2[-300:], v[:4]]))
     return (cid if kind != 'd' else cid[0], 'bad' if bad else 'ok', bad, n)
 
+def bigext_job(j):
+    """(h) extents at the length limits of the format: initialised extents hold at most 32768 blocks, unwritten ones 32767.  A healthy filesystem with written and
+    preallocated runs just below / at / above those limits (and a few punched gaps so that e2fsck finds the extent trees worth rebuilding) x repair mode."""
+    cid, feat, mode = j
+    w = fsweep.scratch_worker(); p = os.path.join(w, 'c5big.img'); src = os.path.join(w, 'c5big.src')
+    for f in (p,):
+        if os.path.exists(f): os.unlink(f)
+    rc, out = run([MKE2FS, '-q', '-F', '-t', 'ext4', '-O', '^has_journal,^resize_inode,sparse_super2,' + feat, '-b', '1024', '-N', '64', '-U', '6b33f586-a183-4383-921d-30ab132db9b9',
+                   '-G', '256', '-E', 'hash_seed=a0c4b9f1-7e1d-4c6b-8f4e-9d2f1b3c5a70,lazy_itable_init=1,nodiscard,packed_meta_blocks=1,num_backup_sb=0', p, '300M'], timeout=120)   # all metadata in front: free space is one run across the groups
+    if rc != 0: return (cid, 'skip', 'mke2fs failed', 0)
+    with open(src, 'wb') as f:
+        blk = bytes(range(256)) * 4
+        for i in range(32768 + 5): f.write(blk[i % 7:] + blk[:i % 7])
+    cmds = ['write /dev/null /U%s' % x for x in ('', '1', '2', '3', '4', '5')] + ['write %s /W' % src,                                           # 32773 written blocks: two initialised extents when contiguous
+            'fallocate /U 0 39999', 'fallocate /U 40010 40020', 'fallocate /U 40030 40040', 'punch /U 40010 40020', 'punch /U 40030 40040',
+            'fallocate /U1 0 32766', 'fallocate /U2 0 32767', 'fallocate /U3 0 65534', 'fallocate /U4 5 32771', 'punch /U4 100 100',
+            'fallocate /U5 0 32767', 'fallocate /U5 32768 65535', 'punch /U5 70000 70001']
+    sp = p + '.dbg'; open(sp, 'w').write('\n'.join(cmds) + '\n')
+    run([DEBUGFS, '-w', '-f', sp, p], timeout=300)
+    os.unlink(src)
+    if run([E2FSCK, '-fn', p], timeout=300)[0] != 0: return (cid, 'skip', 'prepared image not clean', 0)
+    def summary():
+        # debugfs view of every file: size, i_blocks and the extent list condensed to (logical start, length, uninit) runs
+        o = []
+        for f_ in ('W', 'U', 'U1', 'U2', 'U3', 'U4', 'U5'):
+            rc, st = run([DEBUGFS, '-R', 'stat /%s' % f_, p], timeout=120)
+            m = re.search(r'Size: (\d+)', st); b = re.search(r'Blockcount: (\d+)', st)
+            rc, ex = run([DEBUGFS, '-R', 'dump_extents -l /%s' % f_, p], timeout=120)
+            blocks = 0; runs = []
+            for l in ex.splitlines():
+                q = l.split()
+                if len(q) >= 7 and q[0].count('/') == 1 and q[1].count('/') == 0 and '-' in l:
+                    mm = re.search(r'(\d+)\s*-\s*(\d+)\s+(\d+)\s*-\s*(\d+)\s+(\d+)\s*(Uninit)?', l)
+                    if mm:
+                        lo, hi, un = int(mm.group(1)), int(mm.group(2)), bool(mm.group(6))
+                        if runs and runs[-1][1] + 1 == lo and runs[-1][2] == un: runs[-1][1] = hi
+                        else: runs.append([lo, hi, un])
+            rc, md = run([DEBUGFS, '-R', 'dump /%s %s.out' % (f_, p), p], timeout=300)
+            import hashlib
+            h = hashlib.sha1()
+            try:
+                with open(p + '.out', 'rb') as ff:
+                    while True:
+                        x = ff.read(1 << 20)
+                        if not x: break
+                        h.update(x)
+                os.unlink(p + '.out')
+            except OSError: pass
+            o.append((f_, m.group(1) if m else None, b.group(1) if b else None, [tuple(r) for r in runs], h.hexdigest()))
+        return o
+    before = summary()
+    if max(hi - lo + 1 for x in before for lo, hi, un in x[3]) < 32767 and 'bigalloc' not in feat:
+        return (cid, 'bad', [(' '.join(mode), 'preparation failed: no run of 32767 blocks was produced (vacuous)', [str(x)[:200] for x in before][:3])], 0)
+    if any(not x[3] for x in before): return (cid, 'bad', [(' '.join(mode), 'preparation failed: a file has no extents (vacuous)', [str(x)[:200] for x in before if not x[3]][:2])], 0)
+    rc, out = run([E2FSCK] + list(mode) + [p], timeout=600)
+    bad = []
+    if rc not in (0, 1): bad.append((' '.join(mode), 'exit status %s' % rc, out[-400:]))
+    else:
+        after = summary()
+        if after != before:
+            d = [(a, b) for a, b in zip(before, after) if a != b]
+            bad.append((' '.join(mode), 'files changed', [str(x)[:300] for x in d[:2]]))
+        rc2, out2 = run([E2FSCK, '-fn', p], timeout=300)
+        if rc2 != 0: bad.append((' '.join(mode), 'not consistent after repair', [rc2, out2[-300:]]))
+    os.unlink(p)
+    return (cid, 'bad' if bad else 'ok', bad, 2)
+
 def djob(j):
     mid, base, parts = j
     p = fsweep.worker_path('c5d')
@@ -162,11 +229,11 @@ def summary_field(f):
     return False
 
 def main(tier, only=None):
-    global E2FSCK, DEBUGFS
+    global E2FSCK, DEBUGFS, MKE2FS
     ck = Check('C05', tier, 'model_checking')
-    E2FSCK = tool('e2fsck'); DEBUGFS = tool('debugfs'); fsweep.init_scratch()
+    E2FSCK = tool('e2fsck'); DEBUGFS = tool('debugfs'); MKE2FS = tool('mke2fs'); fsweep.init_scratch()
     quick = tier == 'quick'
-    parts = only or ['a', 'b', 'c', 'd', 'e', 'f', 'g']
+    parts = only or ['a', 'b', 'c', 'd', 'e', 'f', 'g', 'h']
     jobs = []
     if 'a' in parts:
         for b in fsweep.SWEEP_BASES + ['needsrec']:
@@ -204,8 +271,19 @@ def main(tier, only=None):
             for pat in itertools.product('HWU', repeat=n):
                 pat = ''.join(pat)
                 jobs.append(('e', 'e/%s/%s' % (base, pat), base, ('pattern', pat, bs_), MODES))
+    hjobs = []
+    if 'h' in parts:
+        for feat in (('metadata_csum',) if quick else ('metadata_csum', '^metadata_csum', 'bigalloc')):
+            for m in MODES:
+                hjobs.append(('h/%s/long-extents :: %s' % (feat, ' '.join(m)), feat, m))
+    hres = pmap(bigext_job, hjobs, chunksize=1) if hjobs else []
     res = pmap(job, jobs, chunksize=2)
     runs = 0; skipped = 0
+    for (cid, st, bad, n), j in zip(hres, hjobs):
+        runs += n
+        if st == 'skip': skipped += 1; log('C05 (h): %s skipped: %s' % (cid, bad)); continue
+        for mode, what, det in (bad or []):
+            ck.violation('%s' % cid, {'case': cid, 'mode': mode, 'what': what, 'detail': det})
     for (cid, st, bad, n), j in zip(res, jobs):
         runs += n
         if st == 'skip': skipped += 1; continue
@@ -234,7 +312,7 @@ def main(tier, only=None):
         ck.part('d_summary_only_damage', mutants=ndj)
     ck.add(evaluations=runs, distinct_nontrivial=len(jobs) + ndj, states=len(jobs) + ndj, transitions=runs, traces_validated_against_impl=runs,
            rule='(a) every corpus image x 5 repair modes; (b) test directory holding the first n of a fixed name sequence (hard links), every n in 0..400, 2-3 sequences (short, 252-byte, mixed lengths), '
-                'on linear/indexed/csum/inline/bigalloc bases x modes, plus names differing only in case in ordinary directories of a casefold-feature filesystem; (c) a file of every block count 0..300 x {bmap2extent, -D}; (g) files with one attribute of every value length 0..130 and capacity-110..capacity of the external block (with and without a second attribute), i.e. every fill level of the in-inode area and of the block; (e) a file whose first n blocks are every pattern over {hole, written, unwritten(preallocated)} (quick n=4, thorough n=6; free space pre-filled with stale bytes) x modes; (f) a directory of symlinks of every target length 1..120, each with a small or a 200-byte extended attribute, on bases with 128- and 256-byte inodes x modes; (d) every single-field mutant of bitmap bits, counts, flags and checksum fields '
+                'on linear/indexed/csum/inline/bigalloc bases x modes, plus names differing only in case in ordinary directories of a casefold-feature filesystem; (c) a file of every block count 0..300 x {bmap2extent, -D}; (h) a 300 MiB filesystem whose files have written and preallocated runs of 32766..65535 blocks (extent length limits 32768 / 32767) with punched gaps x 5 repair modes, second run clean; (g) files with one attribute of every value length 0..130 and capacity-110..capacity of the external block (with and without a second attribute), i.e. every fill level of the in-inode area and of the block; (e) a file whose first n blocks are every pattern over {hole, written, unwritten(preallocated)} (quick n=4, thorough n=6; free space pre-filled with stale bytes) x modes; (f) a directory of symlinks of every target length 1..120, each with a small or a 200-byte extended attribute, on bases with 128- and 256-byte inodes x modes; (d) every single-field mutant of bitmap bits, counts, flags and checksum fields '
                 'x e2fsck -fy.  Oracle: exit in {0,1} and xck.tree (path,type,bytes,size,mode,owner,nlink,target,xattrs) identical before/after; (d) also second run clean',
            samples=[j[1] for j in jobs[:2]] + [j[1] for j in jobs[-2:]])
     ck.assumptions += ['xck.tree is the observer of "files" (independent reader); casefold/encrypted directories not in scope']
